@@ -33,9 +33,9 @@ func c13Lexemes(ctx *Ctx, kind int) []lexeme {
 		switch c := r.Intn(12); {
 		case c == 0:
 			if kind == 1 {
-				lx = lexeme{pick("abc", "x1", "_y", "Zed", "é", "ñandú", "a日本", "q_9", "Añ"), tokenizers.Word, "identifier"}
+				lx = lexeme{pick("abc", "x1", "_y", "Zed", "é", "ñandú", "a日本", "q_9", "Añ", "ÿ", "Louÿs", "Àÿ", "aĀ"), tokenizers.Word, "identifier"}
 			} else {
-				lx = lexeme{pick("abc", "x1", "y_", "Zed", "é", "日本", "a-b", "ключ", "q_9"), tokenizers.Word, "identifier"}
+				lx = lexeme{pick("abc", "x1", "y_", "Zed", "é", "日本", "a-b", "ключ", "q_9", "ÿ", "Louÿs", "Àÿ", "Āa", "\ufffe"), tokenizers.Word, "identifier"}
 			}
 		case c == 1 && kind == 1:
 			kw := pick("AND", "OR", "NOT", "XOR", "LIKE", "IS", "IN", "NULL", "TRUE", "FALSE")
@@ -75,7 +75,7 @@ func c13Lexemes(ctx *Ctx, kind int) []lexeme {
 			lx = lexeme{q + body + q, typ, "quoted"}
 		case c == 6:
 			if kind == 1 {
-				lx = lexeme{pick("/* c */", "/**/", "/* a\nb */", "/* * / */", "/*日本*/"), tokenizers.Comment, "comment"}
+				lx = lexeme{pick("/* c */", "/**/", "/* a\nb */", "/* * / */", "/*日本*/", "/***/", "/* x **/", "/****/", "/** d ***/", "/*/*/"), tokenizers.Comment, "comment"}
 			} else {
 				lx = lexeme{pick("# c", "#", "# a /* b", "#日本"), tokenizers.Comment, "comment"}
 			}
